@@ -483,8 +483,20 @@ def csv_cases(draw, long_only=True):
         for s in names[late:]:
             syms[s][0][3] = None
     first_late = max(market.first_date(r) for r in syms.values())
-    where = draw(st.sampled_from(['before', 'before', 'just_before', 'at_open', 'after']))
-    if where == 'before':
+    where = draw(st.sampled_from(['before', 'before', 'just_before', 'at_open', 'after', 'blank_mid', 'blank_mid']))
+    if where == 'blank_mid':
+        # a bar in the middle of the first symbol's history has an empty Open; the sizer is asked at that very open
+        # (the latest earlier observation is the previous day's close)
+        rows0 = syms[names[0]]
+        k_ = draw(st.integers(1, len(rows0) - 1)) if len(rows0) > 1 else 0
+        if k_ and D.date(*rows0[k_][:3]) > first_late:
+            rows0[k_][3] = None
+            t = [rows0[k_][0], rows0[k_][1], rows0[k_][2], 14, 30, 0]
+        else:
+            where = 'after'
+    if where == 'blank_mid':
+        pass
+    elif where == 'before':
         d = first_late - D.timedelta(days=draw(st.integers(1, 3)))
         t = [d.year, d.month, d.day, 21, 0, 0]
     elif where == 'just_before':
